@@ -54,3 +54,20 @@ package inmemory
 //@   ensures[C05.rd,C16.im] gerr != nil ==> !mid_has[id] && code(gerr) == NotFound && seen == nil
 //@   ensures[C05.lock] wl == old(wl) && rl == old(rl)
 //@   ensures[C03.im] mapHas(p.checkpoints) == mid_has && mapVal(p.checkpoints) == mid_val
+
+// Logs lists exactly the IDs that have a checkpoint (at the instant the read lock was taken: mid_has).
+//@ func (*inMemoryPersistence).Logs
+//@   returns (out, err)
+//@   let mu := fieldref(p, 0)
+//@   requires p != nil && p.checkpoints != nil && !wl[mu] && rl[mu] == 0
+//@   modifies mapof(p.checkpoints), wl, rl, mid_has, mid_val
+//@   ensures[C16.logs,C03.logs] err == nil
+//@   ensures[C16.logs,C03.logs] forall j int :: 0 <= j && j < len(out) ==> mid_has[out[j]]
+//@   ensures[C16.logs,C03.logs] forall k string :: mid_has[k] ==> (exists j int :: 0 <= j && j < len(out) && out[j] == k)
+//@   ensures[C16.logs] forall a int, b int :: 0 <= a && a < b && b < len(out) ==> out[a] != out[b]
+//@   ensures[C05.lock] wl == old(wl) && rl == old(rl)
+//@   ensures[C03.logs] mapHas(p.checkpoints) == mid_has && mapVal(p.checkpoints) == mid_val
+//@   invariant#1 len(res) == $count && 0 <= $count && mapHas(p.checkpoints) == mid_has && mapVal(p.checkpoints) == mid_val && p.checkpoints != nil
+//@   invariant#1 forall k string :: $visited[k] ==> mid_has[k] && 0 <= $pos[k] && $pos[k] < $count && res[$pos[k]] == k
+//@   invariant#1 forall j int :: 0 <= j && j < len(res) ==> $visited[res[j]] && $pos[res[j]] == j
+//@   invariant#1 rl[mu] == old(rl[mu]) + 1 && wl == old(wl) && (forall m Ref :: m != mu ==> rl[m] == old(rl[m]))
